@@ -10,7 +10,7 @@ RULE = ("fixed network R-p0-J0=(pa || pb)=J1 (closing the target pa never isolat
         "sets of 2 (quick) / 3 (thorough, reduced alphabet) controls on the same target drawn from: simple AT TIME t, simple AT "
         "CLOCKTIME c (daily), rule IF SYSTEM TIME rel t, rule IF SYSTEM CLOCKTIME rel c with rel in {=, >, >=, <, <=}, with and "
         "without ELSE, actions OPEN/CLOSED, priorities {1,3,5}; t in {0, 1h, 1h18 (off the hydraulic grid, on the 6-min rule grid), "
-        "1h21m40 (off both), 2h, 25h}, c in {0:00, 1:00, 6:30, 23:00}; start_clocktime {0, 3h, 22h}; hydraulic step {1h, 30min}; rule "
+        "1h21m40 (off both), 2h, 25h}, c in {0:00, 1:00, 6:30, 23:00, 23:30 and 23:57 (inside the step that ends at midnight)}; start_clocktime {0, 3h, 22h}; hydraulic step {1h, 30min}; rule "
         "step {6 min, 1 h}; report 'ALL'.  singles are fully crossed with the options, sets use start {0, 3h} x hyd 1h x rule 6 min.  "
         "oracle: reference event timeline (one-shot time controls, daily clock-time controls, level-triggered rules at positive "
         "multiples of the rule step, rules before simple controls, highest priority wins); every instant at which the timeline "
@@ -24,7 +24,7 @@ H = 3600
 DUR = 27 * H
 DAY = 86400
 TIMES = [0, H, H + 18 * 60, H + 21 * 60 + 40, 2 * H, 25 * H]
-CLOCKS = [0, H, 6 * H + 1800, 23 * H]
+CLOCKS = [0, H, 6 * H + 1800, 23 * H, 23 * H + 1800, 23 * H + 57 * 60]
 RELS = ["=", ">", ">=", "<", "<="]
 
 
